@@ -9,7 +9,7 @@ CONSTANTS
   Targets <- TargetsThree
   MaxRec = 3
   MaxFatal = 1
-  Timer = FALSE
+  Timer = "none"
   EmitMode = "final"
   Record = TRUE
   Eager = TRUE
